@@ -310,18 +310,29 @@ func (a *NilAnalysis) computeGlobals() {
 			}
 		}
 	}
-	for name, vals := range stores {
-		if len(vals) == 0 {
-			continue
-		}
-		ok := true
-		for _, v := range vals {
-			if !constructorNonNil(v) {
+	for changed := true; changed; {
+		changed = false
+		for name, vals := range stores {
+			if len(vals) == 0 || a.globN[name] {
+				continue
+			}
+			ok := true
+			for _, v := range vals {
+				if constructorNonNil(v) {
+					continue
+				}
+				// alias of another package-level variable that is itself non-nil
+				if u, isU := v.(*ssa.UnOp); isU && u.Op == token.MUL {
+					if g, isG := u.X.(*ssa.Global); isG && a.globN[g.Name()] {
+						continue
+					}
+				}
 				ok = false
 			}
-		}
-		if ok {
-			a.globN[name] = true
+			if ok {
+				a.globN[name] = true
+				changed = true
+			}
 		}
 	}
 }
